@@ -4,3 +4,9 @@ Open Scope Z_scope.
 (* RaggedArray.mean(axis=0) (raggedarray/__init__.py): `s = self.sum(axis=0); lengths = self.col_counts(); return s / lengths` -- the element-wise
    quotient of the two column arrays; the division itself (float64, after `astype(float)`) is a parameter *)
 Definition ra_col_mean {C} (dv : Z -> Z -> C) (a : flat_ra Z) : list C := map2 dv (ra_colsum a) (ra_col_counts (snd a)).
+
+(* RaggedArray.mean(axis=-1): `s = self.sum(axis=-1); lengths = self._shape.lengths; return s / lengths` -- the row sums (the reduceat-based
+   reduction of Model/Reduce.v with np.add) divided element-wise by the row lengths *)
+From NPS Require Import Reduce.
+Definition ra_row_mean {C} (dv : Z -> Z -> C) (a : flat_ra Z) : option (list C) :=
+  match reduce_model Z 0 Z.add 0 (fst a) (snd a) with Some s => Some (map2 dv s (snd a)) | None => None end.
